@@ -252,22 +252,157 @@ def PP.toD (pp : PP) : D :=
     box is written `scalar 0 true`. -/
 def addScalar (scaled : Bool) (c : D) : D := if scaled then c.tensor (D.box (.scalar 0 true)) else c
 
-/-- tk.py:336-342. -/
-def finish (inp : TkIn) (acc : Acc) : Except Err D :=
-  match acc.circuit.then (finalLayer acc.bras acc.circuit.cod) with
+/-- tk.py:314-339: the circuit before the scalar and the post-processing are attached. -/
+def fromTkBody (inp : TkIn) : Except Err D :=
+  match loopCmds inp ⟨initCircuit inp, []⟩ inp.cmds with
   | .error e => .error e
-  | .ok c => (addScalar inp.scaled c).then inp.pp.toD
+  | .ok acc => acc.circuit.then (finalLayer acc.bras acc.circuit.cod)
 
 /-- `from_tk(tk_circuit)` (tk.py:266-342). -/
 def fromTk (inp : TkIn) : Except Err D :=
-  match loopCmds inp ⟨initCircuit inp, []⟩ inp.cmds with
+  match fromTkBody inp with
   | .error e => .error e
-  | .ok acc => finish inp acc
+  | .ok c => (addScalar inp.scaled c).then inp.pp.toD
 
-/-! ### the tket circuit an export is (for the round trip) -/
+/-! ### what the import has to achieve, on wire identities
+
+  `Tr.run` follows wire identities through a description: every wire gets a fresh id where it
+  is created, a swap box exchanges two ids, a gate is recorded as a command on the ids of its
+  input wires (a `Measure(override_bits)` on the id of its qubit and the id of its bit wire), a
+  `Bra` as a post-selection of an id.  `ImpSpec.run` says, on the tket side, what should come out:
+  with unit `u` (qubit `u`, or the `j`-th non-post-selected bit as `n_qubits + j`) carrying the id
+  `σ[u]`, every command acts on the ids of the units it names, a tket `SWAP` exchanges two ids,
+  and a measurement into a post-selected bit is remembered for the end (tk.py:320-322). -/
+
+structure Tr where
+  arr : List Nat := []                -- id of the wire at each position
+  next : Nat := 0
+  cmds : List Cmd := []
+  bras : List (Nat × Nat) := []       -- (id, value), in the order of the `Bra` boxes
+  deriving DecidableEq, Repr, Inhabited
+
+def Tr.fresh (t : Tr) (off n : Nat) : Tr :=
+  { t with arr := insertAt t.arr off (List.range' t.next n), next := t.next + n }
+
+/-- A box on `n` qubit wires followed by `m` bit wires at `off`. -/
+def Tr.emit (t : Tr) (op : String) (par : Option Int) (off n m : Nat) : Tr :=
+  { t with cmds := t.cmds ++ [⟨op, par, (t.arr.drop off).take n, (t.arr.drop (off + n)).take m⟩] }
+
+/-- One box (those `from_tk` builds; any other box is passed over). -/
+def Tr.step (t : Tr) (l : TBox × Nat) : Tr :=
+  match l.1 with
+  | .ket bs => t.fresh l.2 bs.length
+  | .bits bs false => t.fresh l.2 bs.length
+  | .swap _ _ => { t with arr := swapAt t.arr l.2 }
+  | .gate name n => t.emit name none l.2 n 0
+  | .rot cls num => t.emit cls (some (2 * num)) l.2 (rotArity cls) 0
+  | .measure n false true => t.emit "Measure" none l.2 n n
+  | .bra bs => { t with bras := t.bras ++ ((t.arr.drop l.2).take bs.length).zip bs
+                        arr := removeAt t.arr l.2 bs.length }
+  | .discard ty => { t with arr := removeAt t.arr l.2 ty.length }
+  | .cgate _ i o => { t with arr := insertAt (removeAt t.arr l.2 i) l.2 (List.range' t.next o), next := t.next + o }
+  | _ => t
+
+def Tr.run (ls : Layers) : Tr := ls.foldl Tr.step {}
+
+structure ImpSpec where
+  σ : List Nat := []                  -- id carried by each unit
+  cmds : List Cmd := []
+  bras : PS := []                     -- qubit unit ↦ value (the dict of tk.py:315)
+  deriving DecidableEq, Repr, Inhabited
+
+def idAt (σ : List Nat) (u : Nat) : Nat := σ[u]?.getD 0
+
+/-- `xs` with the entries at `a` and `b` exchanged. -/
+def exchange (xs : List Nat) (a b : Nat) : List Nat := (xs.set a (idAt xs b)).set b (idAt xs a)
+
+/-- The parameter of a tket op: only the three rotations have one. -/
+def gatePar (c : Cmd) : Option Int := if c.op = "Rx" ∨ c.op = "Rz" ∨ c.op = "CRz" then c.par else none
+
+def ImpSpec.step (inp : TkIn) (s : ImpSpec) (c : Cmd) : ImpSpec :=
+  if c.op = "Measure" then
+    match c.qs.head?, c.bs.head? with
+    | some q, some b =>
+      if inp.ps.has b then { s with bras := s.bras.set q ((inp.ps.get b).getD 0) }
+      else { s with cmds := s.cmds ++
+              [⟨"Measure", none, [idAt s.σ q], [idAt s.σ (inp.nq + (b - psBelow inp.ps b))]⟩] }
+    | _, _ => s
+  else match boxFromTk c, c.qs with
+    | .ok (.swap _ _), [a, b] => { s with σ := exchange s.σ a b }      -- a tket SWAP
+    | _, _ => { s with cmds := s.cmds ++ [⟨c.op, gatePar c, c.qs.map (idAt s.σ), []⟩] }
+
+def ImpSpec.run (inp : TkIn) : ImpSpec :=
+  inp.cmds.foldl (ImpSpec.step inp) ⟨List.range (inp.nq + inp.nbits), [], []⟩
+
+/-- The post-selections in the order of the final layer (tk.py:336-339: by position). -/
+def ImpSpec.braList (inp : TkIn) (s : ImpSpec) : List (Nat × Nat) :=
+  (List.range (inp.nq + inp.nbits)).filterMap fun i =>
+    if s.bras.has i then some (idAt s.σ i, (s.bras.get i).getD 0) else none
+
+/-- A command `from_tk` is specified on: a `Measure` of an existing qubit into an existing bit
+    whose rank among the non-post-selected bits is below `n_bits`; or a supported one- or
+    two-qubit op on existing, different qubits, its parameter on the lattice. -/
+def Cmd.importable (inp : TkIn) (c : Cmd) : Bool :=
+  if c.op = "Measure" then
+    match c.qs, c.bs with
+    | [q], [b] => decide (q < inp.nq) && (inp.ps.has b || decide (b - psBelow inp.ps b < inp.nbits))
+    | _, _ => false
+  else
+    (match boxFromTk c with
+      | .ok box => box.dom.length == c.qs.length
+      | .error _ => false) &&
+    c.qs.all (· < inp.nq) &&
+    (match c.qs with
+      | [_] => true
+      | [a, b] => a != b
+      | _ => false) &&
+    (match c.par with
+      | some p => p % 2 == 0
+      | none => true)
+
+def TkIn.importable (inp : TkIn) : Bool := inp.cmds.all (Cmd.importable inp)
+
+/-- No command touches a qubit after it was measured into a post-selected bit: only then is
+    "post selection happens at the end" (tk.py:322) harmless (finding F33). -/
+def psFinalFrom (ps : PS) : List Nat → List Cmd → Bool
+  | _, [] => true
+  | done, c :: rest =>
+    !(c.qs.any done.contains) &&
+      psFinalFrom ps (if c.op = "Measure" && c.bs.any ps.has then c.qs ++ done else done) rest
+
+def TkIn.psFinal (inp : TkIn) : Bool := psFinalFrom inp.ps [] inp.cmds
+
+/-! ### the round trip `from_tk(to_tk(c))`, on canonical wire-id command lists -/
 
 /-- What `from_tk` reads of an exported circuit: `scaled` is supplied from outside (the product
     of the scalars is not in the model). -/
 def St.toIn (st : St) (scaled : Bool) : TkIn := ⟨st.nq, st.nb, st.cmds, st.ps, scaled, st.pp⟩
+
+/-- A measurement into a post-selected bit (a `Bra` of the diagram). -/
+def isPsMeasure (ps : PS) (c : Cmd) : Bool := c.op == "Measure" && c.bs.any ps.has
+
+/-- Two wire-id specifications describe the same circuit: up to injective namings of the ids,
+    the commands other than post-selected measurements are the same list, the post-selected
+    measurements the same multiset (the import puts them last), the post-selections agree, the
+    classical boxes read the same values and the bit wires leave in the same order. -/
+structure SameCircuit (sp sp' : Sp) (ρq ρb : Nat → Nat) : Prop where
+  injq : InjBelow ρq sp.nq sp'.nq
+  injb : InjBelow ρb sp.nb sp'.nb
+  gates : sp'.cmds.filter (fun c => !isPsMeasure sp'.ps c) =
+    (sp.cmds.filter (fun c => !isPsMeasure sp.ps c)).map (Cmd.map ρq ρb)
+  psm : (sp'.cmds.filter (isPsMeasure sp'.ps)).Perm ((sp.cmds.filter (isPsMeasure sp.ps)).map (Cmd.map ρq ρb))
+  ps : ∀ β, β < sp.nb → sp'.ps.get (ρb β) = sp.ps.get β
+  cg : sp'.cg = sp.cg.map (CG.map ρb)
+  bw : sp'.bw = sp.bw.map (BV.map ρb)
+
+/-- The round trip on one circuit. -/
+def RoundTripOn (c : Circ) (scaled : Bool) : Prop :=
+  ∀ st d, toTk c = .ok st → fromTk (st.toIn scaled) = .ok d →
+    ∃ sp sp' ρq ρb, canon c = .ok sp ∧ canon ⟨d.dom, d.layers⟩ = .ok sp' ∧ SameCircuit sp sp' ρq ρb
+
+/-- **The round-trip statement** (NOT proved; evaluated on the model for every generated export
+    inside the fragment by harness/props/c13.py, stream `roundtrip`): importing the export of a
+    circuit of the `clean` fragment gives a circuit with the same canonical wire-id command list. -/
+def FromToRoundTrip : Prop := ∀ (c : Circ) (scaled : Bool), c.clean = true → RoundTripOn c scaled
 
 end DV.Tk
